@@ -7,8 +7,13 @@ import (
 	"strings"
 	"time"
 
+	"net/http"
+
+	"github.com/buzzfeed/sso/internal/pkg/sessions"
 	"github.com/buzzfeed/sso/verif/engine/explore"
+	"github.com/buzzfeed/sso/verif/engine/vtime"
 	fw "github.com/buzzfeed/sso/verif/framework"
+	"github.com/buzzfeed/sso/verif/harness"
 )
 
 // C04 (sessions end) and C05 (bounded outage grace): breadth-first search over session histories,
@@ -258,9 +263,13 @@ func init() {
 		ID: "C05", Level: "model_checking",
 		Rule: "explicit-state BFS on the implementation as for C04, with the fault alphabet {ok, denied, 401, 429, 503, 500, connection reset, malformed body} injected independently at /validate, /profile and /refresh, gaps around V, G, R; depth <= 4 (quick) / fixpoint (thorough); " +
 			"oracle = reference session with outage start: a due check answered 429/503 serves iff now < outageStart+G and now < login+L; any other failure refuses and clears the cookie; a confirmed check ends the episode; the re-issued cookie's grace start equals the model's; " +
+			"plus (authenticator-never-answers) a due revalidation and a due refresh that the authenticator accepts and never answers, against the back-channel client with its own time-outs: both refused; " +
 			"distinct_nontrivial = distinct (deadline classes, in-outage, outcome) transition signatures",
 		Assumptions: common, QuickBudget: 5 * time.Minute, ThoroughBudget: 25 * time.Minute,
-		Run: func(c *fw.Ctx) { histRun(c, "C05", c05Params, pathDepthFor(c)) },
+		Run: func(c *fw.Ctx) {
+			histRun(c, "C05", c05Params, pathDepthFor(c))
+			c05NeverAnswers(c)
+		},
 	})
 }
 
@@ -269,4 +278,75 @@ func pathDepthFor(c *fw.Ctx) int {
 		return 3
 	}
 	return 2
+}
+
+// c05NeverAnswers: "any other failure (… transport error …) gets no grace". One class of transport error
+// is not reachable with scripted answers that arrive at once: the authenticator accepts the request and
+// never answers. Two requests are made against a proxy whose back-channel client keeps its own time-outs
+// (5 s): one with a revalidation due, one with a refresh due. Each must be refused. (No verdict depends on
+// how long anything took; the executions simply last as long as the client's own time-out.)
+func c05NeverAnswers(c *fw.Ctx) {
+	kinds := []string{"revalidation-due", "refresh-due"}
+	if c.Replay != nil {
+		if c.Replay.Scenario != "authenticator-never-answers" {
+			return
+		}
+		if m, ok := c.Replay.Detail.(map[string]interface{}); ok {
+			kinds = []string{fmt.Sprint(m["due"])}
+		}
+	}
+	vtime.SetManual(harness.T0)
+	defer vtime.SetReal()
+	pol := policy{Name: "grp", Groups: polGroups}
+	e, err := harness.NewProxyEnv(harness.ProxyOpts{YAML: proxyYAML(pol), Backends: []string{"a", "b"}, TemplateVars: map[string]string{},
+		Lifetime: 300 * time.Second, Valid: 40 * time.Second, Grace: 70 * time.Second, RealClientTimeouts: true})
+	if err != nil {
+		panic(explore.HarnessError{Msg: "cannot build proxy: " + err.Error()})
+	}
+	defer e.Close()
+	future, past := harness.At(200*time.Second), harness.At(-5*time.Second)
+	for _, kind := range kinds {
+		s := &sessions.SessionState{ProviderSlug: slugA, ProviderType: "sso", AccessToken: "access-token", RefreshToken: "refresh-token", Email: carol.Email, User: "carol", Groups: []string{"eng"},
+			LifetimeDeadline: future, RefreshDeadline: future, ValidDeadline: future, AuthorizedUpstream: hostA}
+		if kind == "refresh-due" {
+			s.RefreshDeadline = past
+		} else {
+			s.ValidDeadline = past
+		}
+		var asked []string
+		e.Auth.Answer = func(cl *harness.AuthCall) harness.AuthAnswer {
+			asked = append(asked, cl.Endpoint)
+			if len(asked) == 1 {
+				return harness.AuthAnswer{Hang: true} // the due check: accepted, never answered
+			}
+			switch cl.Endpoint {
+			case "profile":
+				return ans(200, `{"email":"x","groups":["eng"]}`)
+			case "refresh":
+				return ans(201, `{"access_token":"access-token-gen","expires_in":100}`)
+			}
+			return ans(200, "{}")
+		}
+		resp := e.Do(harness.NewRequest("GET", "/private", hostA, http.Header{"Cookie": {harness.CookieName + "=" + e.Seal(s)}}, nil))
+		c.Res.Execs++
+		c.Res.Transitions++
+		cleared := false
+		if ck := resp.Cookie(harness.CookieName); ck != nil && ck.Value == "" {
+			cleared = true
+		}
+		d := map[string]interface{}{"due": kind, "authenticator_calls": asked, "status": resp.Status, "served": resp.Served(), "cookie_cleared": cleared}
+		c.Res.Outcome(fmt.Sprintf("never-answers|%s|%d|%v|%v", kind, resp.Status, resp.Served(), cleared))
+		if c.Replay != nil {
+			c.Res.Note("%v", d)
+		}
+		if len(asked) == 0 {
+			panic(explore.HarnessError{Msg: "authenticator-never-answers: the due check was not attempted"})
+		}
+		if resp.Served() {
+			c.Res.Violate(fw.Violation{Property: "C05", Key: "C05/authenticator-never-answers/served/" + kind, Scenario: "authenticator-never-answers", Detail: d,
+				What: "the authenticator accepted the due check and never answered it (a transport error, not a 429/503), yet the request was served"})
+		} else {
+			c.Res.Count("positive_unanswered_checks_refused", 1)
+		}
+	}
 }
